@@ -62,7 +62,8 @@ struct Case {
     warmups: usize,
     conc: usize,
     callers: Vec<CallerPlan>,
-    followup: bool,
+    /// sequential lookups of the same query on the same pool after the callers are done
+    extra_lookups: usize,
 }
 
 impl Case {
@@ -75,7 +76,7 @@ impl Case {
             "warmups": self.warmups,
             "num_concurrent_reqs": self.conc,
             "callers": self.callers.iter().map(|c| json!({"tag": c.tag, "arrive": c.arrive, "cancel": c.cancel})).collect::<Vec<_>>(),
-            "followup": self.followup,
+            "extra_lookups": self.extra_lookups,
         })
     }
     fn from_json(v: &Value) -> Case {
@@ -95,7 +96,7 @@ impl Case {
                     cancel: c["cancel"].as_u64(),
                 })
                 .collect(),
-            followup: v["followup"].as_bool().unwrap_or(false),
+            extra_lookups: v["extra_lookups"].as_u64().map(|x| x as usize).unwrap_or(if v["followup"].as_bool().unwrap_or(false) { 1 } else { 0 }),
         }
     }
     fn single(family: &str, servers: Vec<Srv>, strategy: &str, warmups: usize, conc: usize) -> Case {
@@ -106,7 +107,7 @@ impl Case {
             warmups,
             conc,
             callers: vec![CallerPlan { tag: TAG_MAIN, arrive: 0, cancel: None }],
-            followup: false,
+            extra_lookups: 0,
         }
     }
 }
@@ -202,7 +203,7 @@ struct CallerObs {
 #[derive(Clone, Debug, PartialEq, Eq)]
 struct Obs {
     callers: Vec<CallerObs>,
-    followup: Option<CallerObs>,
+    followups: Vec<CallerObs>,
     log: Vec<Ev>,
     servers: Vec<Srv>,
     hung: bool,
@@ -216,7 +217,7 @@ impl Obs {
         let c = |c: &CallerObs| json!({"start": c.start, "end": c.end, "result": c.res.as_ref().map(|r| format!("{r:?}")), "cancelled": c.cancelled, "panicked": c.panicked});
         json!({
             "callers": self.callers.iter().map(c).collect::<Vec<_>>(),
-            "followup": self.followup.as_ref().map(c),
+            "followups": self.followups.iter().map(c).collect::<Vec<_>>(),
             "log": self.log.iter().map(|e| e.to_json()).collect::<Vec<_>>(),
             "hung": self.hung,
         })
@@ -248,6 +249,139 @@ async fn one_lookup(pool: NameServerPool<Net>, net: Net, tag: u8, owner: u16) ->
     (start, end, classify(r))
 }
 
+fn build_pool(case: &Case, net: &Net) -> NameServerPool<Net> {
+    let mut opts = ResolverOpts::default();
+    opts.timeout = Duration::from_millis(T_MS);
+    opts.num_concurrent_reqs = case.conc;
+    opts.server_ordering_strategy = match case.strategy.as_str() {
+        "user" => ServerOrderingStrategy::UserProvidedOrder,
+        "roundrobin" => ServerOrderingStrategy::RoundRobin,
+        _ => ServerOrderingStrategy::QueryStatistics,
+    };
+    opts.case_randomization = false;
+    let cx = Arc::new(PoolContext::new(opts.clone(), TlsConfig::new().unwrap()));
+    let nss = case
+        .servers
+        .iter()
+        .enumerate()
+        .map(|(i, s)| {
+            let mut cfg = if s.tcp.is_some() { NameServerConfig::udp_and_tcp(server_ip(i)) } else { NameServerConfig::udp(server_ip(i)) };
+            cfg.trust_negative_responses = s.trust_nx;
+            let ns = NameServer::new([], cfg, &opts, net.clone());
+            ns.verif_set_srtt(s.srtt);
+            Arc::new(ns)
+        })
+        .collect();
+    NameServerPool::from_nameservers(nss, cx)
+}
+
+/// A `DnsHandle` that forwards to the pool and records every `send` (start, end, result): the
+/// seam between `RetryDnsHandle` and the pool.
+#[derive(Clone)]
+struct Tap {
+    pool: NameServerPool<Net>,
+    net: Net,
+    sends: Arc<std::sync::Mutex<Vec<CallerObs>>>,
+}
+
+impl DnsHandle for Tap {
+    type Response = std::pin::Pin<Box<dyn futures_util::Stream<Item = Result<DnsResponse, NetError>> + Send>>;
+    type Runtime = <NameServerPool<Net> as DnsHandle>::Runtime;
+    fn send(&self, request: DnsRequest) -> Self::Response {
+        let idx = {
+            let mut v = self.sends.lock().unwrap();
+            v.push(CallerObs { start: self.net.ms(), end: None, res: None, cancelled: false, panicked: None });
+            v.len() - 1
+        };
+        let (net, sends) = (self.net.clone(), self.sends.clone());
+        Box::pin(self.pool.send(request).map(move |r| {
+            let mut v = sends.lock().unwrap();
+            if v[idx].end.is_none() {
+                v[idx].end = Some(net.ms());
+                v[idx].res = Some(classify(Some(r.clone())));
+            }
+            r
+        }))
+    }
+}
+
+/// Family (v): one lookup through `RetryDnsHandle::new(pool, attempts)`. Returns the outer
+/// observation (as `callers[0]`) and the inner sends.
+fn execute_retry(case: &Case, attempts: usize) -> (Obs, Vec<CallerObs>) {
+    vsim::install_hook_clock_tokio();
+    let rt = vsim::rt();
+    let out = rt.block_on(async {
+        let net = Net::new(case.servers.clone(), T_MS, None);
+        let pool = build_pool(case, &net);
+        net.rebase();
+        let tap = Tap { pool, net: net.clone(), sends: Default::default() };
+        let handle = hickory_net::xfer::RetryDnsHandle::new(tap.clone(), attempts);
+        let mut msg = Message::query();
+        msg.metadata.id = owner_id(0);
+        msg.add_query(Query::new(qname(TAG_MAIN), RecordType::A));
+        let req = DnsRequest::new(msg, DnsRequestOptions::default());
+        let start = net.ms();
+        let fut = async move { handle.send(req).next().await };
+        let (res, hung) = match tokio::time::timeout(Duration::from_millis(HORIZON_MS), fut).await {
+            Ok(r) => (Some(classify(r)), false),
+            Err(_) => (None, true),
+        };
+        let end = net.ms();
+        let outer = CallerObs { start, end: if hung { None } else { Some(end) }, res, cancelled: false, panicked: None };
+        let sends = tap.sends.lock().unwrap().clone();
+        (Obs { callers: vec![outer], followups: vec![], log: net.log(), servers: net.servers(), hung }, sends)
+    });
+    drop(rt);
+    out
+}
+
+/// Oracle of family (v).
+fn judge_retry(case: &Case, attempts: usize, obs: &Obs, sends: &[CallerObs], l: &mut Local) {
+    let wit = || {
+        let mut j = case.to_json();
+        j["retry_attempts"] = json!(attempts);
+        j["observed"] = obs.to_json();
+        j["pool_sends"] = json!(sends.iter().map(|c| json!({"start": c.start, "end": c.end, "result": c.res.as_ref().map(|r| format!("{r:?}"))})).collect::<Vec<_>>());
+        j
+    };
+    let outer = &obs.callers[0];
+    if obs.hung || outer.end.is_none() {
+        l.violation("retry:no-completion", "a lookup through RetryDnsHandle did not complete", wit);
+        return;
+    }
+    // every attempt is a pool lookup of its own and is judged as one
+    for c in sends {
+        judge_lookup(case, obs, c, owner_id(0), l, &wit);
+    }
+    let (end, res) = (outer.end.unwrap(), outer.res.as_ref().unwrap());
+    if sends.len() > attempts + 1 {
+        l.violation("retry:too-many-attempts", &format!("{} pool lookups for attempts={attempts}", sends.len()), wit);
+    }
+    if end - outer.start > (attempts as u64 + 1) * T_MS {
+        l.violation("retry:deadline-exceeded", &format!("{} ms for attempts={attempts}, timeout {T_MS} ms", end - outer.start), wit);
+    }
+    let Some(last) = sends.last() else {
+        l.violation("retry:no-pool-lookup", "RetryDnsHandle returned without asking the pool", wit);
+        return;
+    };
+    if last.res.as_ref() != Some(res) || last.end != Some(end) {
+        l.violation("retry:result-is-not-the-last-attempts", &format!("returned {res:?} at {end}, the last pool lookup gave {:?} at {:?}", last.res, last.end), wit);
+    }
+    // documented: negative responses and answers are final; IO errors and timeouts are retried
+    for c in &sends[..sends.len() - 1] {
+        if matches!(c.res, Some(Res::Answer { .. } | Res::OkEmpty { .. } | Res::Nx { .. } | Res::NoData { .. })) {
+            l.violation("retry:retried-after-a-response", &format!("a pool lookup ended with {:?} and was retried", c.res), wit);
+        }
+    }
+    if matches!(res, Res::Timeout | Res::Io) && sends.len() < attempts + 1 {
+        l.violation("retry:gave-up-early", &format!("ended with {res:?} after {} of {} allowed pool lookups", sends.len(), attempts + 1), wit);
+    }
+    if sends.len() > 1 && matches!(res, Res::Answer { .. }) {
+        l.outcome("retry:answer-on-a-later-attempt");
+    }
+    l.outcome(&format!("retry:attempts-used={}", sends.len()));
+}
+
 /// Execute one case on the real pool. Deterministic function of (case, chooser prefix).
 fn execute(case: &Case, chooser: Option<Chooser>, alph: &Alphabets) -> (Obs, Option<Chooser>) {
     vsim::install_hook_clock_tokio();
@@ -260,29 +394,7 @@ fn execute(case: &Case, chooser: Option<Chooser>, alph: &Alphabets) -> (Obs, Opt
             st.tcp_alphabet = alph.tcp.clone();
             st.conn_alphabet = alph.conn.clone();
         }
-        let mut opts = ResolverOpts::default();
-        opts.timeout = Duration::from_millis(T_MS);
-        opts.num_concurrent_reqs = case.conc;
-        opts.server_ordering_strategy = match case.strategy.as_str() {
-            "user" => ServerOrderingStrategy::UserProvidedOrder,
-            "roundrobin" => ServerOrderingStrategy::RoundRobin,
-            _ => ServerOrderingStrategy::QueryStatistics,
-        };
-        opts.case_randomization = false;
-        let cx = Arc::new(PoolContext::new(opts.clone(), TlsConfig::new().unwrap()));
-        let nss = case
-            .servers
-            .iter()
-            .enumerate()
-            .map(|(i, s)| {
-                let mut cfg = if s.tcp.is_some() { NameServerConfig::udp_and_tcp(server_ip(i)) } else { NameServerConfig::udp(server_ip(i)) };
-                cfg.trust_negative_responses = s.trust_nx;
-                let ns = NameServer::new([], cfg, &opts, net.clone());
-                ns.verif_set_srtt(s.srtt);
-                Arc::new(ns)
-            })
-            .collect();
-        let pool = NameServerPool::from_nameservers(nss, cx);
+        let pool = build_pool(case, &net);
 
         for _ in 0..case.warmups {
             let _ = one_lookup(pool.clone(), net.clone(), TAG_WARM, WARM_OWNER).await;
@@ -328,13 +440,16 @@ fn execute(case: &Case, chooser: Option<Chooser>, alph: &Alphabets) -> (Obs, Opt
                 }
             }
         }
-        let mut followup = None;
-        if case.followup && !hung {
+        let mut followups = vec![];
+        for j in 0..case.extra_lookups {
+            if hung {
+                break;
+            }
             tokio::time::sleep(Duration::from_millis(7)).await;
-            let h = tokio::spawn(one_lookup(pool.clone(), net.clone(), TAG_MAIN, FOLLOWUP_OWNER));
+            let h = tokio::spawn(one_lookup(pool.clone(), net.clone(), TAG_MAIN, FOLLOWUP_OWNER + j as u16));
             let start = net.ms();
             let horizon = tokio::time::Instant::now() + Duration::from_millis(HORIZON_MS);
-            followup = Some(match tokio::time::timeout_at(horizon, h).await {
+            followups.push(match tokio::time::timeout_at(horizon, h).await {
                 Err(_) => {
                     hung = true;
                     CallerObs { start, end: None, res: None, cancelled: false, panicked: None }
@@ -346,7 +461,7 @@ fn execute(case: &Case, chooser: Option<Chooser>, alph: &Alphabets) -> (Obs, Opt
                 }
             });
         }
-        let obs = Obs { callers, followup, log: net.log(), servers: net.servers(), hung };
+        let obs = Obs { callers, followups, log: net.log(), servers: net.servers(), hung };
         (obs, net.take_chooser())
     });
     drop(rt);
@@ -473,18 +588,67 @@ fn judge_single(case: &Case, obs: &Obs, l: &mut Local) {
         l.violation("no-completion", "a lookup did not complete within 60 s of virtual time", wit);
         return;
     }
-    let c = &obs.callers[0];
-    let owner = owner_id(0);
-    judge_caller(case, obs, c, owner, TAG_MAIN, l, &wit);
+    // the measured lookup and every later lookup on the same pool are judged alike; a later one
+    // against the scripts as they stand when it starts and the connections the pool then holds
+    judge_lookup(case, obs, &obs.callers[0], owner_id(0), l, &wit);
+    for (j, f) in obs.followups.iter().enumerate() {
+        let owner = FOLLOWUP_OWNER + j as u16;
+        if f.end.is_some() && !obs.log.iter().any(|e| !e.connect && e.owner == owner) && !matches!(f.res, Some(Res::NoConn)) {
+            l.violation("stale-shared-result", "a lookup issued after the previous one completed caused no upstream exchange", wit);
+        }
+        judge_lookup(case, obs, f, owner, l, &wit);
+        l.outcome("later-lookup-judged");
+    }
+}
+
+/// The scripts as they stand at virtual time `t` (what has been consumed is cut off) and, per
+/// server, whether the pool then holds a usable TCP connection.
+fn state_at(obs: &Obs, t: u64) -> (Vec<Srv>, Vec<bool>) {
+    let mut servers = obs.servers.clone();
+    let mut alive = vec![false; servers.len()];
+    for (s, srv) in servers.iter_mut().enumerate() {
+        let used = |tcp: bool| obs.log.iter().filter(|e| !e.connect && e.tag == TAG_MAIN && e.srv == s && e.tcp == tcp && e.step != "closed" && e.start < t).count();
+        let cut = |sc: &mut Script<Step>, k: usize| {
+            let k = k.min(sc.steps.len());
+            sc.steps.drain(..k);
+        };
+        cut(&mut srv.udp, used(false));
+        let ut = used(true);
+        if let Some(tcp) = srv.tcp.as_mut() {
+            cut(tcp, ut);
+        }
+        let connects = obs.log.iter().filter(|e| e.connect && e.srv == s && e.start < t).count();
+        let k = connects.min(srv.tcp_conn.steps.len());
+        srv.tcp_conn.steps.drain(..k);
+        // the last thing that happened on TCP to this server before t
+        if let Some(e) = obs.log.iter().filter(|e| e.srv == s && e.tcp && e.start < t).max_by_key(|e| e.serial) {
+            alive[s] = if e.connect {
+                e.step == "ok"
+            } else {
+                match e.end {
+                    // abandoned in flight (another server won): the connection is kept
+                    None => true,
+                    Some(_) => ["answer:", "nxdomain", "nodata", "truncated", "servfail", "refused"].iter().any(|p| e.step.starts_with(p)),
+                }
+            };
+        }
+    }
+    (servers, alive)
+}
+
+/// The single-lookup oracle (clauses 1-5).
+fn judge_lookup(case: &Case, obs: &Obs, c: &CallerObs, owner: u16, l: &mut Local, wit: &dyn Fn() -> Value) {
+    judge_caller(case, obs, c, owner, TAG_MAIN, l, wit);
     let (Some(end), Some(res)) = (c.end, c.res.as_ref()) else { return };
-    let servers = &obs.servers;
+    let (servers, alive) = state_at(obs, c.start);
+    let servers = &servers;
     let deadline = c.start + T_MS;
     let definitive = is_definitive(res, servers);
-    let main_log: Vec<&Ev> = obs.log.iter().filter(|e| e.connect || (e.tag == TAG_MAIN && e.owner == owner)).collect();
+    let main_log: Vec<&Ev> = obs.log.iter().filter(|e| (e.connect && e.start >= c.start && e.start <= end) || (!e.connect && e.tag == TAG_MAIN && e.owner == owner && e.start >= c.start && e.start <= end)).collect();
 
     // (3) a healthy server's answer is demanded when every admissible reading of the search
     // procedure reaches a definitive response strictly within the budget
-    let must = refwalk::must_be_definitive(servers, &case.strategy, case.conc, T_MS);
+    let must = refwalk::must_be_definitive(servers, &case.strategy, case.conc, T_MS, &alive);
     match must {
         Some(true) => {
             l.outcome("walk:definitive-demanded");
@@ -579,13 +743,8 @@ fn judge_single(case: &Case, obs: &Obs, l: &mut Local) {
         l.outcome("answer-after-transport-fault");
     }
     l.outcome(&format!("result:{}", res.class()));
-
-    // follow-up on the same pool: must complete, be sound and cause a fresh exchange
-    if let Some(f) = &obs.followup {
-        judge_caller(case, obs, f, FOLLOWUP_OWNER, TAG_MAIN, l, &wit);
-        if f.end.is_some() && !obs.log.iter().any(|e| !e.connect && e.owner == FOLLOWUP_OWNER) && !matches!(f.res, Some(Res::NoConn)) {
-            l.violation("stale-shared-result", "a lookup issued after the previous one completed caused no upstream exchange", wit);
-        }
+    if obs.log.iter().any(|e| e.step == "closed" && e.owner == owner) && definitive {
+        l.outcome("answer-after-idle-connection-closed");
     }
 }
 
@@ -744,7 +903,7 @@ fn judge_callers(case: &Case, obs: &Obs, single: &Obs, l: &mut Local) {
             None => Inst { owner: j, owner_cancelled: false, registered_until: c.end.unwrap_or(u64::MAX), orphan_until: 0 },
         });
     }
-    if let Some(f) = &obs.followup {
+    for f in &obs.followups {
         judge_caller(case, obs, f, FOLLOWUP_OWNER, TAG_MAIN, l, &wit);
         if f.end.is_some() && !obs.log.iter().any(|e| !e.connect && e.owner == FOLLOWUP_OWNER) && !matches!(f.res, Some(Res::NoConn)) {
             l.violation("stale-shared-result:after-quiescence", "a lookup issued after all callers completed caused no upstream exchange", wit);
@@ -920,6 +1079,7 @@ fn refine_alphabets(thorough: bool) -> Alphabets {
         udp.push(Step::Busy(SLOW));
     }
     let tcp = vec![
+        Step::AnswerClose(fast(0, true)),
         Step::Answer(SLOW),
         Step::NxDomain(28),
         Step::Silent,
@@ -949,7 +1109,11 @@ fn refine_configs(thorough: bool) -> Vec<Case> {
                 // which servers are configured with UDP only (every subset for n <= 3; none / all /
                 // first / last for n = 4); trust: all / none; busy runs: a server that is busy k
                 // times before following its script
-                let masks: Vec<u32> = if n <= 3 { (0..(1u32 << n)).collect() } else { vec![0, (1 << n) - 1, 1, 1 << (n - 1)] };
+                let mut masks: Vec<u32> = if n <= 3 { (0..(1u32 << n)).collect() } else { vec![0, (1 << n) - 1, 1, 1 << (n - 1)] };
+                if strategy != "user" && n >= 3 {
+                    // the order-insensitive strategies only with none / all / first / last UDP-only
+                    masks.retain(|m| [0, (1 << n) - 1, 1, 1 << (n - 1)].contains(m));
+                }
                 for udp_only in masks {
                     for trust in [true, false] {
                         for busy_run in [0usize, 2, 5] {
@@ -966,8 +1130,14 @@ fn refine_configs(thorough: bool) -> Vec<Case> {
                                 })
                                 .collect();
                             let mut c = Case::single("refine", servers, strategy, warmups, conc);
-                            c.followup = true;
-                            out.push(c);
+                            c.extra_lookups = 2;
+                            out.push(c.clone());
+                            // the same with a first server that truncates every UDP reply: every
+                            // lookup then goes through its TCP connection, which is reused
+                            if busy_run == 0 && trust && udp_only & 1 == 0 && strategy == "user" {
+                                c.servers[0].udp = Script::constant(Step::Truncated(fast(0, false)));
+                                out.push(c);
+                            }
                         }
                     }
                 }
@@ -1080,12 +1250,37 @@ fn caller_plans(single: &Obs, k: usize, thorough: bool) -> Vec<Vec<CallerPlan>> 
         }
         base.push(CallerPlan { tag: TAG_OTHER, arrive: 0, cancel: None });
         plans.push(base.clone());
+        // the different query may also arrive while the first lookup is in flight (it then meets
+        // connections the first lookup opened, possibly already failed)
+        let other_mid = arrivals.get(1).copied().filter(|a| *a > 0 && *a < done);
+        if let Some(a) = other_mid {
+            let mut p = base.clone();
+            p[k].arrive = a;
+            plans.push(p);
+        }
         for target in 0..k {
             for x in &cancels {
                 if *x > base[target].arrive {
                     let mut p = base.clone();
                     p[target].cancel = Some(*x);
-                    plans.push(p);
+                    plans.push(p.clone());
+                    if thorough {
+                        if let Some(a) = other_mid {
+                            let mut q = p.clone();
+                            q[k].arrive = a;
+                            plans.push(q);
+                        }
+                        // a second cancellation (another identical caller, not earlier)
+                        for t2 in target + 1..k {
+                            for y in &cancels {
+                                if *y > base[t2].arrive {
+                                    let mut q = p.clone();
+                                    q[t2].cancel = Some(*y);
+                                    plans.push(q);
+                                }
+                            }
+                        }
+                    }
                 }
             }
         }
@@ -1102,10 +1297,16 @@ fn main() {
     if let Some((_key, case)) = ctx.replay_case() {
         let case = Case::from_json(&case);
         ctx.with_local(|l| {
-            if case.family == "callers" {
+            if case.family == "retry" {
+                let attempts = ctx.replay_case().map(|(_, v)| v["retry_attempts"].as_u64().unwrap_or(1) as usize).unwrap_or(1);
+                l.eval();
+                let (obs, sends) = execute_retry(&case, attempts);
+                judge_retry(&case, attempts, &obs, &sends, l);
+            } else if case.family == "callers" {
                 let mut sc = case.clone();
                 sc.callers = vec![case.callers[0].clone(), case.callers.last().unwrap().clone()];
                 sc.callers[0].cancel = None;
+                sc.callers[1].arrive = 0;
                 let (single, _) = execute(&sc, None, &Alphabets::default());
                 l.eval();
                 let (obs, _) = execute(&case, None, &Alphabets::default());
@@ -1121,11 +1322,12 @@ fn main() {
         "(i) every assignment of {answer, NXDOMAIN, truncated-then-TCP-answer, timeout, io-error, busy-then-answer} to n=1..4 servers x \
          {UserProvidedOrder, RoundRobin after 0..n-1 earlier lookups, QueryStatistics with ascending/descending pinned SRTT} x \
          num_concurrent_reqs {1,2,3} x per-server protocol set {UDP+TCP reachable, UDP+TCP with TCP refused, UDP only} (every assignment for n<=3; all-reachable / all-refused / first-server-UDP-only for n=4) x trust_negative_responses of every NXDOMAIN server; \
-         (ii) every schedule with <= d deviations (d=2 quick, 3 thorough) from 'every exchange is answered fast' over the alphabet \
+         (ii) every schedule with <= d deviations (d=2; thorough d=3 for n<=2 and for n=3 in user order with one request at a time) from 'every exchange is answered fast' over the alphabet \
          {answer 0.6T, NXDOMAIN, truncated, silent(>T), io-error fast/0.6T, reset, busy, SERVFAIL, REFUSED, NODATA, case-mismatch; TCP connect refused/timeout} \
-         under static configurations n x conc x strategy x every subset of UDP-only servers (n<=3) x trust x busy runs {0,2,5}, each followed by a second lookup on the same pool; \
-         (iii) k in {2,3} identical callers + one different query, arrival and at most one cancellation (creator or waiter) at the instants \
-         just before/after every upstream event of the scenario, plus arrival just after completion and a follow-up after quiescence. \
+         under static configurations n x conc x strategy x every subset of UDP-only servers (n<=3) x trust x busy runs {0,2,5} x {first server answers / truncates every UDP reply}, each a SESSION of three sequential lookups on the same pool, every one judged in full against the scripts and TCP connections as they stand when it starts (TCP alphabet incl. 'answer, then the server closes the idle connection'); \
+         (iii) k in {2,3} identical callers + one different query, arrival and at most one (thorough: two) cancellation(s) (creator and/or waiters) at the instants \
+         just before/after every upstream event of the scenario, plus arrival just after completion and a follow-up after quiescence; the different query arrives at t0 or mid-flight. \
+         (v) RetryDnsHandle::new(pool, attempts 0..2 (3)) over 1-2 servers each failing k=1..3 (4) times with one of {io-error, silent, busy, SERVFAIL, untrusted NXDOMAIN, reset} before answering (or answering / trusted NXDOMAIN at once): every pool lookup judged as in (i), at most attempts+1 of them, the last one's result returned, responses never retried, io-errors/timeouts retried while attempts remain, total <= (attempts+1) x timeout. \
          timeout = 1000 ms virtual. Oracle: completion - start <= timeout; result sound (answer produced by a completed exchange, never TC when TCP is healthy); \
          a definitive result whenever every admissible reading of the documented search procedure (reference walk) reaches one strictly within the budget; \
          untrusted NXDOMAIN never ends the search; truncated UDP is followed by a TCP attempt; overlapping identical callers cause no exchange of their own and get the creator's result. \
@@ -1179,6 +1381,9 @@ fn main() {
     let mut sched_runs = 0u64;
     let mut max_points = 0usize;
     for cfg in &configs {
+        // three deviations only where the space stays small: <= 2 servers, or 3 servers asked
+        // one at a time in the configured order
+        let bound = if thorough && (cfg.servers.len() <= 2 || (cfg.servers.len() == 3 && cfg.strategy == "user" && cfg.conc == 1)) { 3 } else { 2 };
         let st = vcore::explore_deviations(&ctx, bound, |ch, l| {
             l.eval();
             let (obs, ch2) = execute(cfg, Some(ch.clone()), &alph);
@@ -1195,8 +1400,8 @@ fn main() {
                 let mut first = obs.clone();
                 if cfg.strategy == "querystats" {
                     for o in [&mut again, &mut first] {
-                        o.followup = None;
-                        o.log.retain(|e| e.owner != FOLLOWUP_OWNER && !e.connect);
+                        o.followups.clear();
+                        o.log.retain(|e| e.owner < FOLLOWUP_OWNER && !e.connect);
                         o.servers.clear();
                     }
                 }
@@ -1221,7 +1426,7 @@ fn main() {
     }
     ctx.set("refine_configs", json!(configs.len()));
     ctx.set("refine_schedules", json!(sched_runs));
-    ctx.set("refine_deviation_bound", json!(bound));
+    ctx.set("refine_deviation_bound", json!(if thorough { "3 for n<=2 and for n=3/user order/conc 1, else 2" } else { "2" }));
     ctx.set("refine_max_decision_points", json!(max_points));
 
     // ---------------- (iii) callers
@@ -1236,7 +1441,7 @@ fn main() {
             for plan in caller_plans(&single, k, thorough) {
                 let mut c = sc.clone();
                 c.callers = plan;
-                c.followup = true;
+                c.extra_lookups = 1;
                 jobs.push((c, single.clone()));
             }
         }
@@ -1261,6 +1466,62 @@ fn main() {
         }
     });
 
+    // ---------------- (v) RetryDnsHandle on top of the pool
+    {
+        // per server: k failures of one kind, then answers; or a plain answer / trusted NXDOMAIN
+        let mut behaviours: Vec<(String, Script<Step>, bool)> = vec![
+            ("answer".into(), Script::constant(Step::Answer(20)), true),
+            ("nxdomain".into(), Script::constant(Step::NxDomain(20)), true),
+        ];
+        let kmax = if thorough { 4 } else { 3 };
+        for (name, step) in [("ioerr", Step::IoErr(24)), ("silent", Step::Silent), ("busy", Step::Busy(0)), ("servfail", Step::ServFail(24)), ("nxdomain-untrusted", Step::NxDomain(24)), ("reset", Step::Reset(24))] {
+            for k in 1..=kmax {
+                behaviours.push((format!("{name}x{k}-then-answer"), Script { steps: vec![step; if name == "busy" { 3 * k } else { k }], rest: Step::Answer(20) }, name != "nxdomain-untrusted"));
+            }
+        }
+        let mut jobs: Vec<(Case, usize)> = vec![];
+        let nb = behaviours.len();
+        for n in 1..=2usize {
+            for code in 0..nb.pow(n as u32) {
+                let idx: Vec<usize> = (0..n).map(|i| (code / nb.pow(i as u32)) % nb).collect();
+                let servers: Vec<Srv> = idx
+                    .iter()
+                    .enumerate()
+                    .map(|(i, b)| Srv {
+                        udp: behaviours[*b].1.clone(),
+                        tcp: Some(Script::constant(Step::Answer(fast(i, true)))),
+                        tcp_conn: Script::constant(ConnStep::Ok),
+                        trust_nx: behaviours[*b].2,
+                        srtt: 10 + 3 * i as u32,
+                    })
+                    .collect();
+                for conc in 1..=n {
+                    for attempts in 0..=if thorough { 3 } else { 2 } {
+                        jobs.push((Case::single("retry", servers.clone(), "user", 0, conc), attempts));
+                    }
+                }
+            }
+        }
+        ctx.set("retry_cases", json!(jobs.len()));
+        ctx.par_run(jobs.len() as u64, 8, |i, l| {
+            let (case, attempts) = &jobs[i as usize];
+            l.eval();
+            let (obs, sends) = execute_retry(case, *attempts);
+            judge_retry(case, *attempts, &obs, &sends, l);
+            l.nontrivial(fnv_str(&format!("{}{attempts}", case.to_json())));
+            if i % 16 == 0 {
+                let (again, sends2) = execute_retry(case, *attempts);
+                if again.digest() != obs.digest() || sends2 != sends {
+                    ctx.machinery_failure(&format!("nondeterminism: retry case {} gave two different observations", case.to_json()));
+                }
+                l.outcome("selftest:replayed-identically");
+            }
+            if i % 1009 == 0 {
+                l.sample(json!({"family": "retry", "attempts": attempts, "servers": case.to_json()["servers"], "pool_lookups": sends.len(), "result": obs.callers[0].res.as_ref().map(|r| r.class())}));
+            }
+        });
+    }
+
     // ---------------- vacuity
     for class in [
         "answer-after-transport-fault",
@@ -1269,6 +1530,11 @@ fn main() {
         "answer-after-busy",
         "walk:definitive-demanded",
         "walk:not-demanded",
+        "later-lookup-judged",
+        "answer-after-idle-connection-closed",
+        "retry:answer-on-a-later-attempt",
+        "retry:attempts-used=1",
+        "retry:attempts-used=3",
         "shared-with-creator",
         "waiter-survived-creator-cancel",
         "selftest:replayed-identically",
